@@ -40,6 +40,7 @@ KINDS = ["unary", "ra", "npscalar", "pyscalar", "0d", "col", "collist", "bad_tot
 FLOOR_TAGS = ["recv:" + r for r in c02.RECVS] + ["k:" + k for k in KINDS] + ["side:L", "side:R", "spelling:operator", "spelling:ufunc", "kind:b", "kind:i", "kind:u", "kind:f",
                                            "v:small", "v:extreme", "v:nonfinite", "norows", "allempty", "e-first", "e-last", "e-mid", "e-consec", "e-none", "onerow-col"]
 FLOOR_MONITORS = ["c04:compare", "c04:must-refuse", "c04:operands-unchanged"]
+FP_STRICT = True       # a floating-point event inside the library that the dense computation does not have is a violation (shard.FpMonitor)
 N_RANDOM = {"quick": 42000, "thorough": 600000}
 PYSCALARS = [2, 3, -1, 0, 2.5, True, False, 300, -129, 1e10]
 
